@@ -931,7 +931,7 @@ class XsdElement(XsdComponent, ParticleMixin,
                 fields = tuple(
                     s.get_value(element_node, context.namespaces) for s in selectors
                 )
-            except (ValueError, TypeError) as err:
+            except (ValueError, TypeError, ArithmeticError) as err:
                 context.validation_error(validation, self, err, obj)
             else:
                 if isinstance(identity, XsdKeyref) and any(x is None for x in fields):
